@@ -58,6 +58,7 @@ def main (args : List String) : IO UInt32 := do
   | "crash" :: _ => loopState stdin stdout crashStep ({} : CrashSt); return 0
   | "dispatch" :: _ => loopState stdin stdout dispatchStep dispatchInit; return 0
   | ["agg"] => loopState stdin stdout aggStep AggState.empty; return 0
+  | ["dkgrun"] => loopPure stdin stdout dkgrunStep; return 0
   | ["store", backend] =>
     match storeInit backend with
     | some st => loopState stdin stdout storeStep st; return 0
